@@ -119,7 +119,7 @@ class dmet_orbitals:
         else:
             # Obtain the elements from the low-level SCF calculations.
             low_scf_rdm = self.mf_full.make_rdm1()
-            low_scf_twoint = self.mf_full.get_veff(self.mol_full, low_scf_rdm, 0, 0, 1)
+            low_scf_twoint = self.mf_full.get_veff(self.mol_full, low_scf_rdm, hermi=1)
 
             core_oneint = self.mf_full.get_hcore()
             low_scf_fock_alpha = core_oneint + low_scf_twoint[0]
